@@ -5,7 +5,7 @@ OUT=/verif/work/calib-$ID
 rm -rf "$OUT"; mkdir -p "$OUT"
 pids=()
 for w in $(seq 0 15); do
-  /verif/build/plain/inosim worker $ID $TIER $SEED $w $N 16 $OUT/w$w $OUT/replays > $OUT/out$w.jsonl 2>/dev/null &
+  ${INOSIM:-/verif/build/plain/inosim} worker $ID $TIER $SEED $w $N 16 $OUT/w$w $OUT/replays > $OUT/out$w.jsonl 2>/dev/null &
   pids+=($!)
 done
 for p in "${pids[@]}"; do wait $p; done
